@@ -15,7 +15,7 @@ REPO = 'git::repository'
 CFG = {'max_steps': 600000}
 
 BOUNDS = {
-    'quick': 'K1: patch per the `git diff -U0 --no-color --no-renames` grammar with <=2 files (modified / added / deleted; plain names with <=2 symbolic bytes, a name with a space (git appends TAB), a C-quoted name with octal and \\t escapes), <=2 hunks per file, hunk starts symbolic 0..999, old/new counts in {0,1,2} (`,1` omitted as git does), every body line = sign + 4 fully symbolic bytes (0x01-0x7f minus LF) + tail (3 / 1 symbolic bytes for added / deleted lines in multi-hunk and multi-file patches), optional `\\ No newline at end of file`, optional hunk heading text',
+    'quick': 'K1: patch per the `git diff -U0 --no-color --no-renames` grammar with <=2 files (modified / added / deleted; plain names with <=2 symbolic bytes, a name with a space (git appends TAB), a C-quoted name with octal and \\t escapes, a C-quoted name whose octal escape is followed by a symbolic byte out of {0, 7, 8, x}), <=2 hunks per file, hunk starts symbolic 0..999, old/new counts in {0,1,2} (`,1` omitted as git does), every body line = sign + 4 fully symbolic bytes (0x01-0x7f minus LF) + tail (3 / 1 symbolic bytes for added / deleted lines in multi-hunk and multi-file patches), optional `\\ No newline at end of file`, optional hunk heading text',
     'thorough': 'as quick with counts up to 3, 3 hunks per file, starts up to 99999',
 }
 OUTSIDE = 'K2-K4 (projection to lines, intersection with committed hunks, the tracker) are decided under C16 / C04 / C05; file discovery, blob snapshots, blame and the notes write are I/O and not encoded; patches with rename/copy headers (the profile pins --no-renames); binary patches'
@@ -30,7 +30,7 @@ def plan(tier, seed):
     maxc = 2 if tier == 'quick' else 3
     counts = list(itertools.product(range(0, maxc + 1), repeat=2))
     counts = [c for c in counts if c != (0, 0)]
-    names = ['plain', 'space', 'quoted']
+    names = ['plain', 'space', 'quoted', 'quoted2']
     # one file, one hunk: every count pair, every name kind, every file kind
     for name in names:
         for fk in ('mod', 'add', 'del'):
@@ -81,11 +81,18 @@ def build_patch(h, shape):
             name = nb + [32] + list(b'y')
             name_in_hdr = list(b'b/') + name + [9]        # git appends a TAB when the name contains a space
             a_name = list(b'a/') + name + [9]
+        elif f['name'] == 'quoted2':
+            # an octal escape directly followed by an ordinary byte that may be a digit (as in  caf\303\2512.txt):
+            # the escape is exactly three digits long
+            d = h.byte_in('q%d' % fi, [48, 55, 56, 120])
+            name = list(b'caf') + [0xC3, 0xA9] + [d] + list(b'.t')
+            raw = list(b'caf\\303\\251') + [d] + list(b'.t')
+            name_in_hdr = list(b'"b/') + raw + [34]
+            a_name = list(b'"a/') + raw + [34]
         else:
             name = list(QUOTED_NAME)
             name_in_hdr = list(QUOTED_RAW)
             a_name = list(QUOTED_RAW.replace(b'"b/', b'"a/'))
-        hdr_name = (list(b'b/') + name) if f['name'] != 'quoted' else list(QUOTED_RAW)
         out += list(b'diff --git ') + [x for x in a_name if not (isinstance(x, int) and x == 9)] + [32] + [x for x in name_in_hdr if not (isinstance(x, int) and x == 9)] + [10]
         if f['kind'] == 'add':
             out += list(b'new file mode 100644\nindex 0000000..e69de29\n--- /dev/null\n+++ ') + name_in_hdr + [10]
